@@ -1,6 +1,7 @@
 SPECIFICATION Spec
 CONSTANTS K = 1
           KO = 0
+          SK = 0
           W = 1
           Ext = TRUE
           ValSet = "marker"
